@@ -8,6 +8,7 @@ import (
 	"sort"
 	"strings"
 	"sync"
+	"sync/atomic"
 	"time"
 
 	"github.com/enfein/mieru/v3/apis/client"
@@ -28,21 +29,22 @@ type World struct {
 	Res  *spec.RunResult
 	Tap  *Tap
 
-	mu       sync.Mutex
-	start    time.Time
-	srv      server.Server
-	srvNode  *simnet.Node
-	clients  []*clientRT
-	sessions map[string]*sessRT // "c<ci>s<si>" -> runtime
-	probes   map[string]int
-	faults   map[string]int
-	states   map[string]struct{}
-	wg       sync.WaitGroup
-	checks   int64
-	healed   bool
-	userUp   map[string]int64 // bytes returned by server-side Read, per user (model of C19)
-	userDown map[string]int64 // bytes accepted by server-side Write, per user
-	histHash uint64
+	mu         sync.Mutex
+	start      time.Time
+	srv        server.Server
+	srvNode    *simnet.Node
+	clients    []*clientRT
+	sessions   map[string]*sessRT // "c<ci>s<si>" -> runtime
+	probes     map[string]int
+	faults     map[string]int
+	states     map[string]struct{}
+	wg         sync.WaitGroup
+	checks     atomic.Int64
+	healed     bool
+	closeRT    *closeRT
+	userUp     map[string]int64 // bytes returned by server-side Read, per user (model of C19)
+	userDown   map[string]int64 // bytes accepted by server-side Write, per user
+	histHash   uint64
 	histEvents int64
 	acceptErrs int
 
@@ -70,11 +72,7 @@ func (w *World) fault(name string) {
 	w.mu.Unlock()
 }
 
-func (w *World) addCheck(n int64) {
-	w.mu.Lock()
-	w.checks += n
-	w.mu.Unlock()
-}
+func (w *World) addCheck(n int64) { w.checks.Add(n) }
 
 // violate records an oracle failure. Violations whose property differs from
 // the property under check are kept as notes (one check, one oracle).
